@@ -16,7 +16,9 @@ What it does
   `expired_auth_token`.  Without a clock tokens never age (the behaviour every earlier user of this fake relies on);
 * per file name a stack of versions: `('upload', bytes)` or `('hide',)`; uploads push a version, `b2_hide_file` pushes a hide
   marker (400 `no_such_file` if the name has no version, 400 `already_hidden` if the newest version is a hide marker);
-* download/HEAD by name serve the newest version if it is an upload, else 404 `not_found`;
+* download/HEAD by name serve the newest version if it is an upload, else 404 `not_found`; the bucket in `/file/<bucket>/…` must be
+  the bucket's NAME (its id, or another bucket's name, answers 404), the `bucketId` of the API calls must be its ID (400 `bad_bucket_id`);
+  `other_buckets` / `buckets_after` are further (empty) buckets `b2_list_buckets` reports before / after ours;
 * `b2_list_file_names`: newest *visible* version per name, names in UTF-8 byte order, `>= startFileName`, with `prefix`,
   at most `min(page_size, maxFileCount)` per page, `nextFileName` = the next name or null;
 * file names in URLs and in `X-Bz-File-Name` are percent-decoded the way B2 documents it (UTF-8, `+` decodes to a space);
@@ -43,7 +45,8 @@ AUTH_URL = 'https://api.backblazeb2.com/b2api/v2/b2_authorize_account'
 
 class FakeB2:
     def __init__(self, bucket_name, key_id, application_key, bucket_id='4a48fe8875c6214145260818', account_id='acc0123456789',
-                 page_size=10000, fault=None, token_uses=None, restricted=False, other_buckets=(), clock=None, token_ttl=86400):
+                 page_size=10000, fault=None, token_uses=None, restricted=False, other_buckets=(), clock=None, token_ttl=86400,
+                 buckets_after=()):
         self.bucket_name, self.bucket_id, self.account_id = bucket_name, bucket_id, account_id
         self.key_id, self.application_key = key_id, application_key
         self.page_size = page_size
@@ -51,6 +54,7 @@ class FakeB2:
         self.token_uses = token_uses
         self.restricted = restricted            # key restricted to this bucket (authorize answer carries bucketId/bucketName)
         self.other_buckets = list(other_buckets)  # [(id, name)] listed before ours by b2_list_buckets
+        self.buckets_after = list(buckets_after)  # [(id, name)] listed after ours (all other buckets are empty and answer like unknown ones)
         self.api_url = 'https://api001.fake-b2.test'
         self.download_url = 'https://f001.fake-b2.test'
         self.upload_host = 'https://pod-000-1001-01.fake-b2.test'
@@ -177,6 +181,8 @@ class FakeB2:
                 params = json.loads(body.decode('utf-8')) if body else {}
             except ValueError:
                 return self._err(400, 'bad_json')
+            if isinstance(params, dict) and 'bucketId' in params:
+                entry['bucket_id'] = params['bucketId']      # how the request addressed the bucket (API calls: by id)
             fn = getattr(self, '_api_' + api, None)
             if fn is None:
                 return self._err(404, 'not_found', 'unknown api call ' + api)
@@ -190,6 +196,7 @@ class FakeB2:
             return self._err(400, 'bad_request', 'accountId')
         bs = [{'accountId': self.account_id, 'bucketId': i, 'bucketName': n, 'bucketType': 'allPrivate'} for i, n in self.other_buckets]
         bs.append({'accountId': self.account_id, 'bucketId': self.bucket_id, 'bucketName': self.bucket_name, 'bucketType': 'allPrivate'})
+        bs += [{'accountId': self.account_id, 'bucketId': i, 'bucketName': n, 'bucketType': 'allPrivate'} for i, n in self.buckets_after]
         return httpx.Response(200, json={'buckets': bs})
 
     def _api_b2_get_upload_url(self, p, entry):
@@ -291,6 +298,7 @@ class FakeB2:
             return bad
         rest = raw_path[len('/file/'):]
         bucket, _, enc_name = rest.partition('/')
+        entry['bucket'] = unquote_plus(bucket)                # how the request addressed the bucket (download by name: by name)
         if unquote_plus(bucket) != self.bucket_name:
             return self._err(404, 'not_found', 'bucket ' + bucket)
         name = unquote_plus(enc_name, errors='surrogateescape')
